@@ -307,3 +307,67 @@ Definition ref_reduction_signalled (L : nat) (rs : rstate) (bs : list N) : bool 
 Definition rfc_ref_decode_block (hd : list N -> option (list N)) (L : nat) (rs : rstate)
   (bs : list N) : option (list field * rstate) :=
   if ref_reduction_signalled L rs bs then ref_decode_block hd L rs bs else None.
+
+(* ================= oracle on recorded behaviour =================
+   Used by the search for failing inputs (lib/props/parts/hpackdec.py): the reference decoder is
+   run on the inputs of a recorded history of an implementation and compared with what the
+   implementation answered.  Result code per history:
+     0  nothing to object
+     1  a block was accepted that the grammar/table rules above reject
+     2  a block was accepted with a different header list
+     3  the dynamic table afterwards differs (entries or size)
+     4  the dynamic table is larger than the protocol's limit after an accepted block
+     5  accepted although a required size update (4.2) is missing
+   The history is judged up to the first block the implementation rejected (rejecting is always
+   allowed by the property; the connection is dead afterwards). *)
+
+Fixpoint fields_eq (a b : list field) : bool :=
+  match a, b with
+  | [], [] => true
+  | x :: a', y :: b' =>
+    list_N_eqb (fst x) (fst y) && list_N_eqb (snd x) (snd y) && fields_eq a' b'
+  | _, _ => false
+  end.
+
+(* recorded results of the Huffman decoder; an unrecorded string decodes to a non-octet *)
+Fixpoint hd_recorded (tbl : list (list N * option (list N))) (raw : list N) : option (list N) :=
+  match tbl with
+  | [] => Some [100000]
+  | (k, r) :: tbl' => if list_N_eqb k raw then r else hd_recorded tbl' raw
+  end.
+
+(* one block: limits acknowledged before it (in order), octets, accepted?, headers,
+   table entries (None = not recorded), table size *)
+Definition oracle_block : Type :=
+  (list N * list N * bool * list field * option (list field) * N)%type.
+
+Definition last_limit (rs : rstate) (queued : list N) : rstate :=
+  match rev queued with
+  | [] => rs
+  | l :: _ => set_limit rs l
+  end.
+
+Fixpoint oracle_history (hd : list N -> option (list N)) (L : nat) (rs : rstate)
+  (blocks : list oracle_block) : N :=
+  match blocks with
+  | [] => 0
+  | (queued, bs, accepted, fs, entries, tsize) :: more =>
+    if negb accepted then 0
+    else
+      let rs1 := last_limit rs queued in
+      match ref_decode_block hd L rs1 bs with
+      | None => 1
+      | Some (rfs, rs2) =>
+        if negb (fields_eq rfs fs) then 2
+        else if negb (match entries with Some es => fields_eq (r_dyn rs2) es | None => true end
+                      && (table_size (r_dyn rs2) =? tsize)) then 3
+        else if negb (tsize <=? r_limit rs2) then 4
+        else if negb (ref_reduction_signalled L rs1 bs) then 5
+        else oracle_history hd L rs2 more
+      end
+  end.
+
+Definition oracle_hpack
+  (c : list (list N * option (list N)) * N * list oracle_block) : N :=
+  let '(huff, size, blocks) := c in
+  oracle_history (hd_recorded huff) 4 (rstate_init size) blocks.
